@@ -10,7 +10,6 @@ use tower::layer::util::{Identity, Stack};
 use tower::ServiceBuilder;
 use tower_http::follow_redirect::policy;
 use tower_http::follow_redirect::FollowRedirectLayer;
-use tower_http::set_header::SetRequestHeaderLayer;
 
 use super::conn::protocol::auto;
 use super::conn::transport::tcp::TcpTransportConfig;
@@ -471,10 +470,16 @@ where
                     .map(|d| TimeoutLayer::new(|| super::Error::RequestTimeout, d)),
             )
             .optional(self.redirect.map(FollowRedirectLayer::with_policy))
-            .layer(SetRequestHeaderLayer::if_not_present(
-                http::header::USER_AGENT,
-                user_agent,
-            ))
+            .map_request(move |mut request: http::Request<BIn>| {
+                // Set the user agent if the caller did not. A header map which is
+                // already full keeps the request as it is, instead of panicking.
+                if !request.headers().contains_key(http::header::USER_AGENT) {
+                    let _ = request
+                        .headers_mut()
+                        .try_insert(http::header::USER_AGENT, user_agent.clone());
+                }
+                request
+            })
             .layer(IncomingResponseLayer::new())
             .layer(
                 ConnectionPoolLayer::<_, _, _, UriKey>::new(transport, self.protocol.build())
